@@ -19,24 +19,27 @@ draw u placed at 0, just below q, just above q, at random places of (0, B) and a
                              configuration (own positions, own nearest-image arithmetic, the pair's own charges); in
                              addition the candidate time must be the minimum of the pair displacements for the given
                              exponential draws (the proposal really is the superposition of these pair processes);
-        leaf_cell / comp_cell: constant-rate proposal, so B = (exponential draw) / (proposed time displacement);
+        leaf_cell / comp_cell: constant-rate proposal: B = 1 / (time displacement proposed for the exponential draw
+                             1.0 on a copy of the state); the actual draw E must then be proposed at E / B;
         leaf_veto / comp_veto: speed * |charge factor| * (estimator bound of the sampled cell offset, recomputed here
                              from the cell corners with an own estimator instance), and the sum of these rates over all
-                             offsets must equal (exponential draw) / (proposed time displacement);
+                             offsets must be the rate the time displacement is drawn from (measured as above);
   (b) a velocity is handed over if and only if u < q, q = max(0, sum over the pairs (active point mass, target point
       mass) of the TRUE potential's derivative with the charges of that pair), evaluated at positions advanced here;
   (c) not confirmed: every position, velocity and time stamp of the out-state equals the in-state advanced to the
       candidate time (own time slicing), the active unit stays active;
   (d) confirmed: exactly one leaf unit is active, it is another one than before, it carries the old velocity and the
       candidate time as time stamp, the old one has none; the root units carry weight * velocity of their active leaf.
-Tolerances (floating point only): u is kept away from q by delta = 1e-9 * sum |pair derivatives| (draws closer than
-that to q are not generated), B is compared with relative tolerance 1e-9 (1e-7 where it is obtained as a quotient of
-an exponential draw and a time difference), positions with 1e-11 * L, candidate times with 1e-9 relative.  States in
+Tolerances (floating point only): u is kept away from q by delta = 1e-9 * sum over the pairs of max(|pair derivative|,
+nearest-image Coulomb term of the pair) (draws closer than that to q are not generated; lattice sums cancel, so the
+rounding error of q is not relative to q), B is compared with relative tolerance 1e-9 (1e-7 where it is obtained as
+a quotient of an exponential draw and a time difference), positions with 1e-11 * L, candidate times with 1e-9
+relative or, for badly conditioned inversions (tiny exponential draw), a potential error of 1e-11 * pair potential.  States in
 which a nearest-image separation component lies within 1e-9 L of +-L/2 (the bound is discontinuous there) or in which
 the bound does not propose an event at all are counted but not evaluated.
 
-KNOWN behaviour of the pinned tree that is reported under "observations" and NOT under "violations": see
-OBSERVATION_SPEED below (cell-veto handlers compare a per-length bound with a per-time rate when speed != 1)."""
+A defect this harness found on the pinned tree (cell-veto handlers compared a per-length bound with a per-time rate
+when speed != 1, see OBSERVATION_SPEED) has been repaired in /repo; it is reported as a violation of clause (a)."""
 import itertools
 import json
 import logging
@@ -522,7 +525,8 @@ class Harness(object):
                     if proposal == "pairs":
                         bound = sum(max(0.0, b) for b in r["bounding_pairs"])
                         bound_tol = REL_B * sum(abs(b) for b in r["bounding_pairs"])
-                        if not self.check_pair_proposal(spec, bounding_potential, use_charge, exponentials, dt, ctx):
+                        if not self.check_pair_proposal(spec, bounding_potential, use_charge, exponentials, dt, ctx,
+                                                        r["bounding_pairs"]):
                             return
                     elif proposal == "quotient":
                         # constant-rate proposal: the rate was measured with the probe draw 1.0 (long time
@@ -583,10 +587,9 @@ class Harness(object):
                 if a != 0.0 or not abs(b - bound) <= bound_tol:
                     if veto is not None and spec["speed"] != 1.0 and a == 0.0 and \
                             abs(b * spec["speed"] - bound) <= bound_tol:
-                        if not first.get("observed"):
-                            first["observed"] = True
-                            self.observe(OBSERVATION_SPEED, family=family, speed=spec["speed"], handler_bound=b,
-                                         proposal_rate=bound, q=r["q"])
+                        # found on the pinned tree and repaired (known_findings.txt, fixed: C04): a violation again
+                        self.bad("(a) " + OBSERVATION_SPEED, speed=spec["speed"], handler_bound=b, **ctx_u)
+                        return
                     else:
                         self.bad("(a) the confirmation draw is uniform(%r, %r) but the event was proposed at the rate %r"
                                  % (a, b, bound), **ctx_u)
@@ -624,11 +627,11 @@ class Harness(object):
                     return
 
     # ---------------------------------------------------------------------------------------------------------------
-    def check_pair_proposal(self, spec, bounding_potential, use_charge, exponentials, dt, ctx):
+    def check_pair_proposal(self, spec, bounding_potential, use_charge, exponentials, dt, ctx, event_rates):
         """The candidate time is the minimum over the target point masses of the pair displacement for the pair's own
         exponential draw (separations of the START configuration, own arithmetic)."""
         a, targets = self.pairs(spec)
-        candidates = []
+        candidates, potential_scales = [], []
         for index, t in enumerate(targets):
             s = nearest_image(t["pos"], a["pos"], spec["L"])
             if any(abs(abs(c) - 0.5 * spec["L"]) < HALF_BOX_GUARD * spec["L"] for c in s):
@@ -637,9 +640,14 @@ class Harness(object):
             cs = (a["charge"]["charge"], t["charge"]["charge"]) if use_charge else (1.0, 1.0)
             candidates.append(bounding_potential.displacement(
                 list(spec["velocity"]), list(s), *cs, exponentials[index % len(exponentials)] / self.setting.beta))
+            potential_scales.append(2.0 * abs(cs[0] * cs[1]) / math.sqrt(sum(c * c for c in s)))
         expected = min(candidates)
+        winner = candidates.index(expected)
         self.evaluations += 1
-        if not abs(dt - expected) <= 1e-9 * (abs(expected) + 1e-3) + 1e-12 * (1.0 + spec["t0"]):
+        # the displacement inverts the pair potential: a rounding error of the potential value (relative 1e-11 of the
+        # potential itself allowed) is a time error of that amount divided by the pair rate at the event
+        if not (abs(dt - expected) <= 1e-9 * (abs(expected) + 1e-3) + 1e-12 * (1.0 + spec["t0"])
+                or abs(dt - expected) * abs(event_rates[winner]) <= 1e-11 * potential_scales[winner]):
             self.bad("(a) the candidate time is not the minimum of the pair displacements of the bounding potential "
                      "(the event is not proposed from the sum of the clipped pair rates)", got=dt, expected=expected,
                      pair_candidates=candidates, **ctx)
